@@ -6,7 +6,7 @@ branch c13, over the constants regenerated into `NV.Gen.C13`.  Quantification is
 buffer state satisfying the stated invariant (which the initial state satisfies and every step preserves), every
 byte stream and every way of cutting it into reads.
 -/
-import NV.C13.Lemmas15
+import NV.C13.Lemmas16
 
 namespace NV.C13
 
@@ -332,6 +332,30 @@ example : (fRun (fun k => if k = 0 then .err else .ok) { s := S.init .ascii }
       [.send [111, 110, 101, 10, 116, 119, 111, 10, 116, 104, 114], .read, .send [101, 101, 10], .read]).toOption.map
     (fun f => (f.clean, f.aborted, f.delivered, f.s.sock)) =
     some (true, false, [[111, 110, 101], [116, 119, 111], [116, 104, 114, 101, 101]], []) := by
+  set_option maxRecDepth 1000000 in decide
+
+/-- **console_lines_delivered** — the console end to end.  For any schedule of console blobs (whatever the console
+    worker read at once: several lines, half a line, CR LF split over two blobs) and extractions on a fresh console
+    user, such that every blob fitted behind `text_end` and the buffer was never full at an extraction (`clean`):
+    the lines delivered so far followed by the commands still complete in the buffer are `consoleLines accepted`
+    (pieces ended by LF, CR or NUL, empty ones skipped, edited) — independent of how the input was cut into blobs —
+    and after an extraction that returned nothing everything has been delivered. -/
+theorem console_lines_delivered (ops : List COp) (f : CF) (h : cRun { s := S.init .console } ops = .ok f)
+    (hc : f.clean = true) :
+    f.delivered ++ cmdsOf [] (pend f.s) = consoleLines f.accepted ∧
+    (f.lastNone = true → f.delivered = consoleLines f.accepted) := by
+  have k := consoleK_run ops _ f (fun _ => consoleK_init) h hc
+  have h0 := k.cmds []
+  simp only [List.append_nil] at h0
+  rw [← consoleLines_eq_cmdsOf] at h0
+  refine ⟨h0, fun hn => ?_⟩
+  rw [k.drained hn, List.append_nil] at h0
+  exact h0
+
+/-- non-vacuity: "lo", "ok\nsa", "y\r\n" in three blobs, extraction in between -/
+example : (cRun { s := S.init .console } [.line [108, 111], .line [111, 107, 10, 115, 97], .extract,
+      .line [121, 13, 10], .extract, .extract]).toOption.map (fun f => (f.clean, f.delivered, f.lastNone)) =
+    some (true, [[108, 111, 111, 107], [115, 97, 121]], true) := by
   set_option maxRecDepth 1000000 in decide
 
 end NV.C13
